@@ -1,22 +1,27 @@
 use super::super::fe::load::{load_3i, load_4i};
 
 #[derive(Clone, Debug, PartialEq, Eq)]
+/// Scalar in the field ℤ/(2^252 + 27742317777372353535851937790883648493)
 pub struct Scalar([u8; 32]);
 
 impl Scalar {
+    /// The 0 scalar
     pub const ZERO: Self = Scalar([
         0, 0, 0, 0, 0, 0, 0, 0, 0, 0, 0, 0, 0, 0, 0, 0, 0, 0, 0, 0, 0, 0, 0, 0, 0, 0, 0, 0, 0, 0,
         0, 0,
     ]);
 
+    /// Create a new scalar from 32 bytes (no reduction is performed)
     pub const fn from_bytes(bytes: &[u8; 32]) -> Self {
         Scalar(*bytes)
     }
 
+    /// Output the scalar as its 32 bytes little-endian representation
     pub const fn to_bytes(&self) -> [u8; 32] {
         self.0
     }
 
+    /// Create a new scalar from 32 bytes, refusing values that are not below the group order
     pub fn from_bytes_canonical(bytes: &[u8; 32]) -> Option<Self> {
         const L: [u8; 32] = [
             0x10, 0x00, 0x00, 0x00, 0x00, 0x00, 0x00, 0x00, 0x00, 0x00, 0x00, 0x00, 0x00, 0x00,
